@@ -687,14 +687,44 @@ static void entropy_run(const Plan *p, RunResult *r)
 		static uint8_t wire[2][2][200000]; static size_t wlen[2][2];      /* [run][dir] */
 		static RecInfo recs[2][2][MAX_REC]; static int nrecs[2][2];
 		uint64_t h[3] = { 0, 0, 0 };
+		int pair_mode = (int)(((uint64_t)p->ent_c ^ (uint64_t)p->ent_s) % 3);      /* 0 both streams change, 1 only the server's, 2 only the client's */
 		r->nontrivial = 1;
 		r->nontrivial_id = r->fault_id = hash_bytes(0x91a, (int64_t[]){ p->proto, p->mutual, p->ent_c, p->ent_s }, 32);
 		for (int run = 0; run < 3; run++) {
 			q = *p;
 			q.efail_node = -1; q.eburst_at = -1;
-			if (run == 2) { q.ent_c = p->ent_c ^ 0x5a5a5a5a; q.ent_s = p->ent_s ^ 0x3c3c3c3c; }
+			/* which side gets another stream in the third run: both, only the server, only the client (a value
+			 * that one side merely copies from its peer changes when both change, and stays when only that side does) */
+			if (run == 2) {
+				if (pair_mode != 2) q.ent_s = p->ent_s ^ 0x3c3c3c3c;
+				if (pair_mode != 1) q.ent_c = p->ent_c ^ 0x5a5a5a5a;
+			}
 			conn_run(&q, creds_get((int)q.depth, q.proto == P_TLCP), &o, NULL, NULL);
 			if (o.hs_ret[0] != 1 || o.hs_ret[1] != 1) { r->twin_failed = 1; return; }
+			if (run == 0) {
+				/* provenance: the Hello randoms on the wire are bytes this endpoint drew from its entropy stream */
+				static uint8_t drawn[160 * 48];
+				const uint8_t *hr[2] = { NULL, NULL };
+				for (int d = 0; d < 2; d++) {
+					Pipe *pp = &g_conns[0].pipe[d];
+					Node *n = &g_sim.nodes[d == DIR_C2S ? 0 : 1];
+					size_t dl = 0, ro = p->proto == P_TLS13 ? 11 : 15, rl = p->proto == P_TLS13 ? 32 : 28;
+					for (int i = 0; i < n->ndrawbytes; i++) { memcpy(drawn + dl, n->drawbytes[i], n->drawbytes_len[i]); dl += n->drawbytes_len[i]; }
+					if (pp->sent_len < 44 || pp->sent[0] != TLS_record_handshake) continue;
+					hr[d] = pp->sent + 11;
+					if (!memmem(drawn, dl, pp->sent + ro, rl)) {
+						rr_violation(r, "x", "proto=%s: the %s random on the wire is not a run of bytes that endpoint drew from its entropy stream (%d draws, %zu bytes)",
+							g_proto_names[p->proto], d ? "ServerHello" : "ClientHello", n->ndrawbytes, dl);
+						snprintf(r->vclass, sizeof(r->vclass), "entropy_provenance:hello_random:%s:%s", g_proto_names[p->proto], d ? "server" : "client");
+						return;
+					}
+				}
+				if (hr[0] && hr[1] && !memcmp(hr[0], hr[1], 32)) {
+					rr_violation(r, "x", "proto=%s: ServerHello.random equals ClientHello.random", g_proto_names[p->proto]);
+					snprintf(r->vclass, sizeof(r->vclass), "entropy_provenance:hello_random:%s:server", g_proto_names[p->proto]);
+					return;
+				}
+			}
 			for (int d = 0; d < 2; d++) {
 				Pipe *pp = &g_conns[0].pipe[d];
 				h[run] = hash_bytes(h[run], pp->sent, pp->sent_len);
@@ -714,6 +744,7 @@ static void entropy_run(const Plan *p, RunResult *r)
 		}
 		/* collect ephemeral values of run A (slot 0) and run B (slot 1): Hello randoms, 65-byte EC points, record IVs */
 		for (int d = 0; d < 2; d++) {
+			if ((pair_mode == 1 && d == DIR_C2S) || (pair_mode == 2 && d == DIR_S2C)) continue;     /* this side kept its stream */
 			/* Hello random: first record of the direction, bytes 11..42 (TLS 1.3: all 32; older: skip the 4 time bytes) */
 			size_t ro = p->proto == P_TLS13 ? 11 : 15, rl = p->proto == P_TLS13 ? 32 : 28;
 			if (wlen[0][d] > 43 && wlen[1][d] > 43 && !memcmp(wire[0][d] + ro, wire[1][d] + ro, rl)) {
